@@ -374,6 +374,8 @@ theorem posStep_ww (dn iname ref : String) (nports : Nat) (acc r : St × Nat) (e
       | error x => simp [hg] at h
       | ok rd' =>
         simp only [hg] at h
+        split at h
+        · simp [throw, throwThe, MonadExceptOf.throw] at h
         generalize hc : connectInstRow _ dn iname rd'.ports.length ws = C at h
         cases C with
         | error x => simp at h
